@@ -54,8 +54,8 @@ CLAIMS = {
     "C15": ("spec/Walk.tla, MC_Walk.tla",
             "TLC checks C15_ProcessedIffNotMatched, C15_NotDescended, C15_ExcludedNotScanned, C15_WholeInputExcluded for every pattern set of the menu and every listing permutation; replayed behaviours compare the documented files with the non-excluded ones and the directories listed (os.walk roots, os.scandir calls) with the excluded set, under three listing orders each; several patterns are split over -e, the -s file and the per-user file; the packaged entry script src/main.py is exercised with glob patterns; in recorded walks over random trees every observed PathSpec.match_file result is compared by TLC with Walk.Match.",
             "gitignore semantics of pathspec trusted; pattern forms: name, name/, *.ext, **/name, **/parent/glob, absolute path, <ancestor>/* (whole input)", "4 C15"),
-    "C16": ("spec/Config.tla, MC_C16.tla",
-            "TLC checks C16_Precedence, C16_WrongTypeRejected, C16_ExcludesUnion on the source-stacking machine (Configuration, set_file, set_args, get, all_contents) for every option x every subset of sources, and pairs of options; every behaviour is replayed through the real cminx.main with synthesised YAML sources and the Settings object handed to cminx.document compared field by field, incl. exclude-filter concatenation, output-directory resolution and rejection of wrong-typed values.",
+    "C16": ("spec/Config.tla, MC_C16.tla, TraceConfig.tla",
+            "TLC checks C16_Precedence, C16_WrongTypeRejected, C16_ExcludesUnion on the source-stacking machine (Configuration, set_file, set_args, get, all_contents) for every option x every subset of sources, and pairs of options; every behaviour is replayed through the real cminx.main with synthesised YAML sources and the Settings object handed to cminx.document compared field by field, incl. exclude-filter concatenation, output-directory resolution and rejection of wrong-typed values; in the other direction every one of these runs is recorded (a recording subclass in place of cminx.Configuration logs the source list after the constructor, set_file, set_args and the outcome of get) and validated event by event by TLC against the same actions (TraceConfig.tla; a copy with a reversed source list must be rejected).",
             "wrong types only in the effective source; StrSeq leniency and logging section not judged", "4 C16"),
     "C17": ("spec/Runs.tla, MC_Runs.tla",
             "TLC checks on the main()-loop machine (shared Settings object, deep copy per input, default prefix written into the copy) that page content depends on input and settings only for every run descriptor x command line of the menu; a seeded sample of the behaviours is executed for real, one OS process each (cwd, spelling, location, PYTHONHASHSEED, listing order through os.walk, repeat, companion inputs before/after) and every generated file compared byte for byte with the canonical run of each input alone; page bodies of selected files are also compared with the file documented alone (nothing a process documented earlier may show); runs go through the packaged entry script src/main.py.",
